@@ -103,21 +103,16 @@ func init() {
 				if !marks {
 					continue
 				}
-				// the table: a map to descriptors updated under a key read from an entry's subject annotation
+				// the table: the map from subjects to descriptors the function looks responses up in
 				isDescMap := func(v ssa.Value) bool {
 					m, ok := v.Type().Underlying().(*types.Map)
 					return ok && isNamed(m.Elem(), r.TypesPath, "Descriptor")
 				}
+				// (a local filled in this function, or a parameter filled by the step that scanned the entries)
 				var table ssa.Value
 				an.Instrs(fn, func(in ssa.Instruction) {
-					mu, ok := in.(*ssa.MapUpdate)
-					if !ok || !isDescMap(mu.Map) || table != nil {
-						return
-					}
-					if lk, isLk := an.Strip(mu.Key).(*ssa.Lookup); isLk {
-						if k, isK := an.ConstString(lk.Index); isK && k == subjAnnot {
-							table = an.Origin(mu.Map)
-						}
+					if lk, ok := in.(*ssa.Lookup); ok && isDescMap(lk.X) && table == nil {
+						table = an.Origin(lk.X)
 					}
 				})
 				if table == nil {
